@@ -103,6 +103,15 @@ pub fn install_global_sink(categories: &[&'static str]) {
     GLOBAL_ON.store(true, Ordering::SeqCst);
 }
 
+/// Inspect the events recorded so far by the process-wide sink.
+pub fn with_global_sink<R>(f: impl FnOnce(&[Json]) -> R) -> Option<R> {
+    GLOBAL_SINK
+        .lock()
+        .unwrap_or_else(|e| e.into_inner())
+        .as_ref()
+        .map(|x| f(&x.1))
+}
+
 pub fn take_global_sink() -> Vec<Json> {
     GLOBAL_ON.store(false, Ordering::SeqCst);
     GLOBAL_SINK
